@@ -98,8 +98,12 @@ class RefL(Val):
 
 
 class Sq(Val):
-    def __init__(self, t):
+    """a sequence; for a block selected from a 2-d container `axis` is the axis of the result along which the sequence runs
+    (0: one element per row, 1: one element per column), None when unknown or not applicable"""
+
+    def __init__(self, t, axis=None, ndim=None):
         self.t = t
+        self.axis, self.ndim = axis, ndim
 
     def __repr__(self):
         return f"Sq({show(self.t)})"
@@ -1160,7 +1164,11 @@ class Interp:
             return Sq(("cat", tuple(self.leaf(x) for x in items)))
         if isinstance(e, ast.Dict):
             if all(isinstance(k, ast.Constant) for k in e.keys):
-                return Dct({k.value: self.ev(v, env) for k, v in zip(e.keys, e.values)})
+                d_ = {k.value: self.ev(v, env) for k, v in zip(e.keys, e.values)}
+                for k_, v_ in d_.items():
+                    if isinstance(v_, Sq):
+                        self.sh.setdefault("dict_layout", {})[k_] = v_.axis if v_.ndim == 2 else (0 if v_.ndim == 1 else None)
+                return Dct(d_)
             return E(e)
         if isinstance(e, ast.JoinedStr):
             vals = []
@@ -1275,6 +1283,8 @@ class Interp:
             return Tup([I(P.s(f"n[{base.s!r}]")) if ax == base.axis else I(P.s(f"m{ax}[{base.s!r}]")) for ax in range(base.ndim)])
         if e.attr == "T" and isinstance(base, Vec) and base.ndim == 2:
             return Vec(base.s, 1 - base.axis, 2)
+        if e.attr == "T" and isinstance(base, Sq) and base.ndim == 2 and base.axis is not None:
+            return Sq(base.t, 1 - base.axis, 2)
         if e.attr in TRANSPARENT_METH and isinstance(base, (Sq, Vec, RefL)):
             return base
         if e.attr == "size" and isinstance(base, Vec) and base.ndim == 1:
@@ -1375,7 +1385,7 @@ class Interp:
             hi = self.topoly(ch[2]) if ch[2] is not None else P.s(f"n[{base.s!r}]")
             if ch[3] is None and lo is not None and hi is not None:
                 j = self.fresh("v")
-                return Sq(("for", j, lo, hi, ("row", base.s, P.s(j))))
+                return Sq(("for", j, lo, hi, ("row", base.s, P.s(j))), new_axis, new_ndim)
             return Sq(("opq", "strided channel slice"))
         if isinstance(ch, Msk):
             j = self.fresh("v")
@@ -1384,13 +1394,13 @@ class Interp:
                 body = ("if", ("notin" if ch.neg else "in", P.s(j), ch.dom), body)
             elif not ch.neg:
                 body = EMPTY
-            return Sq(("for", j, P.c(0), ch.n, body))
+            return Sq(("for", j, P.c(0), ch.n, body), new_axis, new_ndim)
         if isinstance(ch, RefL):
             c = self.fresh("c")
-            return Sq(("forin", c, ch.dom, ("row", base.s, P.s(c))))
+            return Sq(("forin", c, ch.dom, ("row", base.s, P.s(c))), new_axis, new_ndim)
         if isinstance(ch, Sq):
             s = base.s
-            return Sq(tmap(normalise(ch.t), lambda leaf: ("row", s, leaf[1]) if leaf[0] == "int" else ("opq", f"index element {show(leaf)}")))
+            return Sq(tmap(normalise(ch.t), lambda leaf: ("row", s, leaf[1]) if leaf[0] == "int" else ("opq", f"index element {show(leaf)}")), new_axis, new_ndim)
         p = self.topoly(ch) if isinstance(ch, (I, K)) else None
         if p is not None:
             return Sq(("row", base.s, p))
@@ -1525,6 +1535,22 @@ class Interp:
                     return Vec(base.s, 1 - base.axis, 2)
                 if e.func.attr in ("flatten", "ravel") and isinstance(base, Vec) and base.ndim > 1:
                     return Sq(("opq", "flattened multi-dimensional container"))
+                if e.func.attr == "transpose" and isinstance(base, Sq) and base.ndim == 2 and base.axis is not None and not args:
+                    return Sq(base.t, 1 - base.axis, 2)
+                if e.func.attr == "reshape" and isinstance(base, Sq) and base.ndim == 2 and base.axis is not None:
+                    shp = args[0].items if len(args) == 1 and isinstance(args[0], Tup) else args
+                    if len(shp) == 2:
+                        # (k, -1) keeps one element per row only if the elements already run along the rows
+                        neg = [isinstance(x, (I, K)) and self.topoly(x) is not None and self.topoly(x) == P.c(-1) for x in shp]
+                        if neg == [False, True]:
+                            if base.axis == 0:
+                                return base
+                            return Sq(("ex", "reshape(k, -1) of a (samples x channels) block: rows no longer are channels (no transposition before the reshape)"), 0, 2)
+                        if neg == [True, False]:
+                            if base.axis == 1:
+                                return base
+                            return Sq(("ex", "reshape(-1, k) of a (channels x samples) block: columns no longer are channels"), 1, 2)
+                    return Sq(base.t)          # layout unknown after the reshape
                 return base
             if e.func.attr == "dot" or e.func.attr in ("mean", "sum", "max", "min", "std"):
                 return E(e)
